@@ -75,3 +75,51 @@ package io
 //@   ensures [stream_skips_one_or_error] dec.reader != nil ==>
 //@       ghost.rpos[ival(dec.reader)] - dec.tail + dec.head == old(ghost.rpos[ival(dec.reader)] - dec.tail + dec.head) + 1 ||
 //@       (dec.Error != nil && ghost.rpos[ival(dec.reader)] - dec.tail + dec.head == old(ghost.rpos[ival(dec.reader)] - dec.tail + dec.head))
+
+// next(n): the next n bytes, for ANY n read off the wire. Fewer only with an error recorded;
+// the logical position advances by exactly what was returned; a result that is not `safe` is a
+// view of the window, a safe one is private memory; what is allocated is bounded by what is
+// loaded (so by the input), whatever n claims.
+//@ func (*Decoder).next
+//@   prop C04 C05
+//@   nopanic
+//@   use decwf
+//@   let n0 = n
+//@   let lp0 = ghost.rpos[ival(dec.reader)] - dec.tail + dec.head
+//@   modifies @DECWIN, dec.buf[*]
+//@   atmake [allocation_bounded_by_loaded_input] makecap <= dec.tail - dec.head + len(dec.buf)
+//@   loop 1 invariant n > 0 && len(data) + n == n0 && safe && 0 <= dec.tail && dec.tail <= len(dec.buf) && isnew(arr(data))
+//@   loop 1 invariant dec.reader != nil ==> ghost.rpos[ival(dec.reader)] == lp0 + len(data) && len(dec.buf) > 0
+//@   loop 1 invariant dec.reader == nil ==> same(dec.buf, old(dec.buf)) && dec.tail == old(dec.tail)
+//@   loop 1 invariant old(dec.Error) != nil ==> dec.Error != nil
+//@   ensures [never_more_than_asked] len(data) <= n0 || (n0 < 0 && len(data) == 0)
+//@   ensures [short_only_with_error] len(data) < n0 ==> dec.Error != nil
+//@   ensures [negative_length_is_an_error] n0 < 0 ==> dec.Error != nil
+//@   ensures [memory_position] dec.reader == nil ==> dec.head == old(dec.head) + len(data) || (dec.head == dec.tail && dec.Error != nil)
+//@   ensures [stream_position] dec.reader != nil ==> ghost.rpos[ival(dec.reader)] - dec.tail + dec.head == lp0 + len(data)
+//@   ensures [unsafe_result_is_a_view_of_the_window] !safe ==> arr(data) == arr(dec.buf) && off(data) == off(dec.buf) + old(dec.head) && same(dec.buf, old(dec.buf))
+//@   ensures [safe_result_is_private] safe && data != nil ==> isnew(arr(data))
+
+//@ func (*Decoder).UnsafeNext
+//@   prop C04 C05
+//@   nopanic
+//@   use decwf
+//@   let n0 = n
+//@   let lp0 = ghost.rpos[ival(dec.reader)] - dec.tail + dec.head
+//@   modifies @DECWIN, dec.buf[*]
+//@   ensures [never_more_than_asked] len(data) <= n0 || (n0 < 0 && len(data) == 0)
+//@   ensures [short_only_with_error] len(data) < n0 ==> dec.Error != nil
+//@   ensures [stream_position] dec.reader != nil ==> ghost.rpos[ival(dec.reader)] - dec.tail + dec.head == lp0 + len(data)
+
+//@ func (*Decoder).Next
+//@   prop C04 C05 C14
+//@   nopanic
+//@   use decwf
+//@   let n0 = n
+//@   let lp0 = ghost.rpos[ival(dec.reader)] - dec.tail + dec.head
+//@   modifies @DECWIN, dec.buf[*]
+//@   atmake [allocation_bounded_by_what_was_read] makecap <= dec.tail + len(dec.buf)
+//@   ensures [never_more_than_asked] len(result) <= n0 || (n0 < 0 && len(result) == 0)
+//@   ensures [short_only_with_error] len(result) < n0 ==> dec.Error != nil
+//@   ensures [stream_position] dec.reader != nil ==> ghost.rpos[ival(dec.reader)] - dec.tail + dec.head == lp0 + len(result)
+//@   ensures [result_never_aliases_the_input] result != nil ==> isnew(arr(result))
